@@ -588,7 +588,9 @@ func (w *c08W) interrogateBody(st *c08Session, img *simfs.FS, id string, im c08I
 		if l < 0 || rr < l {
 			return w.violate("C08.range_malformed", "reported range is not an interval", im, "id %s: GetOffsetRange = [%d,%d]", tailID(id), l, rr)
 		}
-		if rr > l && !fed.covers(l, rr) {
+		// (bytes appended to a file behind its recorded end make the reopened cache count them - it sizes a segment by its
+		// file; what matters is that none of them is served: the rules below)
+		if rr > l && !fed.covers(l, rr) && !strings.Contains(im.flip, " length +") {
 			return w.violate("C08.range_beyond", "reported range is not within one contiguous run of bytes handed to the cache", im,
 				"id %s: GetOffsetRange = [%d,%d] but by then the cache had been given only %s of this history", tailID(id), l, rr, fed)
 		}
@@ -932,6 +934,29 @@ func (w *c08W) corrupt() *Violation {
 				}
 				w.r.W.Fault("byte_alteration")
 				im := c08Img{k: k, ver: w.ver, what: "final image", verify: true, flip: fmt.Sprintf("%s byte %d ^= %#02x", e.Name(), p, mask)}
+				if v := w.interrogate(img, id, im, false); v != nil {
+					return v
+				}
+			}
+			// the file's length altered: a lost tail, bytes appended behind the recorded end
+			sealed := false // a log segment whose header records its size: closed by a rotation or a clean close
+			if strings.HasSuffix(e.Name(), ".aof") {
+				if b, err := final.ReadFile(c08Base + "/" + id + "/" + e.Name()); err == nil && len(b) >= 16 {
+					sealed = b[9] != 0 || b[10] != 0 || b[11] != 0 || b[12] != 0
+				}
+			}
+			for _, delta := range []int{-3, 5} {
+				if !sealed || budget <= 0 || size+int64(delta) < 16 {
+					continue
+				}
+				budget--
+				img := w.fs.ImageAt(k, 0)
+				path := c08Base + "/" + id + "/" + e.Name()
+				if err := img.Resize(path, delta); err != nil {
+					continue
+				}
+				w.r.W.Fault("length_alteration")
+				im := c08Img{k: k, ver: w.ver, what: "final image", verify: true, flip: fmt.Sprintf("%s length %+d", e.Name(), delta)}
 				if v := w.interrogate(img, id, im, false); v != nil {
 					return v
 				}
